@@ -226,7 +226,7 @@ class chunks(object):
         #
         raChunkMin = np.zeros(decChunkMax-decChunkMin+1, dtype='i4')
         raChunkMax = np.zeros(decChunkMax-decChunkMin+1, dtype='i4')
-        sinMargin = np.sin(np.deg2rad(marginSize))
+        sinMargin = np.sin(np.deg2rad(float(marginSize)))
         for i in range(decChunkMin, decChunkMax+1):
             #
             # A cap of radius marginSize around a point at declination dec
